@@ -1,6 +1,9 @@
 import PhyVerif.Model.C06
 import PhyVerif.Spec.C06
 import PhyVerif.Lemmas.C06
+import PhyVerif.Model.C06b
+import PhyVerif.Spec.C06b
+import PhyVerif.Lemmas.C06b
 /-!
 # C06 — sparse feature storage is densified exactly
 Only property theorems + non-vacuity examples; proofs in `Lemmas/C06.lean`.
@@ -31,14 +34,19 @@ theorem fromSparse_order_independent (zero : β) (data : List (List β)) (cols :
   Lemmas.fromSparse_order_independent zero data cols chans chans' out out' ho ho'
     i j j' hj hj' heq
 
-/-- `get_features` / `get_template_features`: for every request of distinct spikes in ANY order
-and every list of distinct channels, with or without a row (spike id) table, the row returned at
-the position of a STORED spike is the densification of that spike's stored row with the column
-table row of that spike's template (all-channel `arange` when there is no column table). -/
+/-- `get_features` / `get_template_features`: for every request of spikes in ANY order and every
+list of distinct channels, with or without a row (spike id) table, the row returned at the position
+of a STORED spike is the densification of that spike's stored row with the column table row of that
+spike's template (all-channel `arange` when there is no column table).
+`hs`: without a row table the requested spikes may repeat; WITH a row table they must be distinct —
+there the real code (and the model) is wrong for a repeated STORED spike: `_index_of(s, spike_ids)`
+(model.py:1036/1067) keeps only the last position of a repeated id, so every earlier occurrence stays
+an all-NaN row (row table [1,3,5,6]: `get_features([3,3], …)` → row 0 NaN, row 1 data;
+`get_template_features([5,1,5])` → first row NaN).  `hsr`: an id ≥ n_spikes raises IndexError. -/
 theorem getFeatures_spec (zero nan : β) (sf : Sparse β) (nloc nSpikes nTemplates : Nat)
     (spikeTemplates : List Nat) (hst : StoreOK sf nloc nSpikes nTemplates spikeTemplates)
-    (spikeIds chans : List Nat) (hs : spikeIds.Nodup) (hsr : ∀ q ∈ spikeIds, q < nSpikes)
-    (hc : chans.Nodup) :
+    (spikeIds chans : List Nat) (hs : sf.rows ≠ none → spikeIds.Nodup)
+    (hsr : ∀ q ∈ spikeIds, q < nSpikes) (hc : chans.Nodup) :
     ∃ out, getFeatures zero nan sf nloc spikeTemplates spikeIds chans = some out ∧
       out.length = spikeIds.length ∧
       ∀ i (hi : i < spikeIds.length) row, storedRow sf (spikeIds[i]'hi) = some row →
@@ -49,13 +57,67 @@ theorem getFeatures_spec (zero nan : β) (sf : Sparse β) (nloc nSpikes nTemplat
 /-- template features: same statement over all templates `0 .. nTemplates-1` -/
 theorem getTemplateFeatures_spec (zero nan : β) (tf : Sparse β) (nloc nSpikes nTemplates : Nat)
     (spikeTemplates : List Nat) (hst : StoreOK tf nloc nSpikes nTemplates spikeTemplates)
-    (spikeIds : List Nat) (hs : spikeIds.Nodup) (hsr : ∀ q ∈ spikeIds, q < nSpikes) :
+    (spikeIds : List Nat) (hs : tf.rows ≠ none → spikeIds.Nodup) (hsr : ∀ q ∈ spikeIds, q < nSpikes) :
     ∃ out, getTemplateFeatures zero nan tf nloc spikeTemplates nTemplates spikeIds = some out ∧
       out.length = spikeIds.length ∧
       ∀ i (hi : i < spikeIds.length) row, storedRow tf (spikeIds[i]'hi) = some row →
         out.getD i [] = (List.range nTemplates).map fun c =>
           denseEntry zero row (colsRow tf nloc spikeTemplates (spikeIds[i]'hi)) c :=
   Lemmas.getTemplateFeatures_spec zero nan tf nloc nSpikes nTemplates spikeTemplates hst spikeIds hs hsr
+
+/-- shape of `from_sparse`: whenever the conversion succeeds there is one output row per data row
+and every row has one column per requested channel (the discard column is gone). -/
+theorem fromSparse_shape (zero : β) (data : List (List β)) (cols : List (List Int)) (chans : List Nat)
+    (out : List (List β)) (ho : fromSparse zero data cols chans = some out) :
+    out.length = data.length ∧ ∀ r ∈ out, r.length = chans.length :=
+  Lemmas.fromSparse_shape zero data cols chans out ho
+
+/-- shape of `get_features` / `get_template_features`: one row per requested spike (stored or not),
+one column per requested channel. -/
+theorem getFeatures_shape (zero nan : β) (sf : Sparse β) (nloc : Nat) (spikeTemplates : List Nat)
+    (spikeIds chans : List Nat) (out : List (List β))
+    (h : getFeatures zero nan sf nloc spikeTemplates spikeIds chans = some out) :
+    out.length = spikeIds.length ∧ ∀ r ∈ out, r.length = chans.length :=
+  Lemmas.getFeatures_shape zero nan sf nloc spikeTemplates spikeIds chans out h
+
+/-- order independence at the `get_features` level: for the same spikes, the value returned for a
+channel — on EVERY row, NaN rows of unstored spikes included — does not depend on where, or next to
+which other channels, the channel is requested. -/
+theorem getFeatures_order_independent (zero nan : β) (sf : Sparse β) (nloc : Nat)
+    (spikeTemplates : List Nat) (spikeIds chans chans' : List Nat) (out out' : List (List β))
+    (ho : getFeatures zero nan sf nloc spikeTemplates spikeIds chans = some out)
+    (ho' : getFeatures zero nan sf nloc spikeTemplates spikeIds chans' = some out')
+    (i j j' : Nat) (hj : j < chans.length) (hj' : j' < chans'.length)
+    (heq : chans[j]'hj = chans'[j']'hj') :
+    (out.getD i []).getD j zero = (out'.getD i []).getD j' zero :=
+  Lemmas.getFeatures_order_independent zero nan sf nloc spikeTemplates spikeIds chans chans' out out'
+    ho ho' i j j' hj hj' heq
+
+/-- The PCA route (no feature file, a store of extracted spike waveforms): `get_features` returns an
+`(n_spikes, n_channels, 3)` block whose entry (spike, channel j, component k) is, for a spike the
+store holds, the projection `Σ_t waveform[spike, t, channel] · pcs[k, t, j]` of the spike's stored
+waveform on that channel (ZERO samples where the spike's channel row does not list the channel; no
+mean is subtracted) onto the k-th of the three components of that channel, and 0 for a spike the store
+does not hold.  The components are `pcsOf` (= `_compute_pcs(·, 3)`, opaque) of the waveforms of the
+requested spikes that are stored, taken in increasing spike-id order, on the requested channels.
+Hypotheses = the domain of the real code: `hs` distinct requested spikes (a repeated stored spike
+gets zeros at all but its last position — `_index_of(spike_ids_exist, spike_ids)`, model.py:1014 —,
+same defect as with a row table); `hne` an empty channel list raises ValueError (`np.dstack` of
+nothing); `hnsw`/`hpcs`: with fewer than 3 samples per waveform `_compute_pcs` returns fewer than 3
+components and `compute_features` raises AssertionError. -/
+theorem getFeaturesPca_spec (pcsOf : List Wav → List Wav) (sw : WStore) (nsw : Nat)
+    (hsw : WStoreOK sw nsw) (hnsw : 0 < nsw) (spikeIds chans : List Nat) (hs : spikeIds.Nodup)
+    (hc : chans.Nodup) (hne : chans ≠ [])
+    (hpcs : (pcsOf (pcaBlock sw nsw spikeIds chans)).length = 3) :
+    ∃ out, getFeaturesPca pcsOf sw nsw spikeIds chans = some out ∧ out.length = spikeIds.length ∧
+      ∀ i (hi : i < spikeIds.length),
+        (out.getD i []).length = chans.length ∧ (∀ r ∈ out.getD i [], r.length = 3) ∧
+        ∀ j (hj : j < chans.length) k, k < 3 →
+          ((out.getD i []).getD j []).getD k 0 =
+            if spikeIds[i] ∈ sw.spikeIds then
+              projection sw nsw (pcsOf (pcaBlock sw nsw spikeIds chans)) spikeIds[i] (chans[j]'hj) j k
+            else 0 :=
+  Lemmas.getFeaturesPca_spec pcsOf sw nsw hsw hnsw spikeIds chans hs hc hne hpcs
 
 /-! Non-vacuity (cells are integers, nan = -99) -/
 example : fromSparse (0 : Int) [[10, 11, 12], [20, 21, 22]] [[4, 2, -1], [-1, 0, -1]] [2, 9, 0, 4] =
@@ -65,5 +127,27 @@ example :
     getFeatures 0 (-99) sf 2 [0, 0, 1, 0, 0, 1, 0, 0] [5, 3, 7] [2, 1, 0] =
       some [[0, 30, 0], [-99, 0, -99], [11, 0, 10]] := by decide
 example : ColsOK [[4, 2, -1], [-1, 0, -1]] := by unfold ColsOK; decide
+-- without a row table a repeated request is served at both positions
+example :
+    let sf : Sparse Int := ⟨[[10, 11], [20, 21], [30, 31]], some [[0, 2], [1, -1]], none⟩
+    getFeatures 0 (-99) sf 2 [0, 1, 0] [2, 2] [2, 1, 0] = some [[31, 0, 30], [31, 0, 30]] := by decide
+-- with a row table a repeated STORED spike is NOT (all but the last occurrence read NaN): excluded by `hs`
+example :
+    let sf : Sparse Int := ⟨[[10, 11], [20, 21], [30, 31]], some [[0, 2], [1, -1]], some [7, 2, 5]⟩
+    getFeatures 0 (-99) sf 2 [0, 0, 1, 0, 0, 1, 0, 0] [5, 5] [2, 1, 0] =
+      some [[0, -99, 0], [0, 30, 0]] := by decide
+
+/-! the PCA route: spikes 4 and 7 stored (rows padded with −1), 2 samples, requested channels 0 and 1,
+spike 3 not stored -/
+example : getFeaturesPca (fun _ => [[[1, 0], [0, 1]], [[1, 1], [1, 1]], [[0, 2], [1, 0]]])
+      (⟨[4, 7], [[2, 0, -1], [1, -1, -1]], [[[1, 2, 0], [3, 4, 0]], [[5, 0, 0], [6, 0, 0]]]⟩ : WStore) 2 [7, 3, 4] [0, 1] =
+    some [[[0, 0, 0], [6, 11, 10]], [[0, 0, 0], [0, 0, 0]], [[2, 6, 4], [0, 0, 0]]] := by decide +kernel
+example : pcaBlock (⟨[4, 7], [[2, 0, -1], [1, -1, -1]], [[[1, 2, 0], [3, 4, 0]], [[5, 0, 0], [6, 0, 0]]]⟩ : WStore)
+    2 [7, 3, 4] [0, 1] = [[[2, 0], [4, 0]], [[0, 5], [0, 6]]] := by decide +kernel
+example : projection (⟨[4, 7], [[2, 0, -1], [1, -1, -1]], [[[1, 2, 0], [3, 4, 0]], [[5, 0, 0], [6, 0, 0]]]⟩ : WStore)
+    2 [[[1, 0], [0, 1]], [[1, 1], [1, 1]], [[0, 2], [1, 0]]] 7 1 1 2 = 10 := by decide +kernel
+example : WStoreOK (⟨[4, 7], [[2, 0, -1], [1, -1, -1]], [[[1, 2, 0], [3, 4, 0]], [[5, 0, 0], [6, 0, 0]]]⟩ : WStore) 2 := by
+  unfold WStoreOK RowOK; decide
+example : indexOfI [0, 2] [2, 0, -1, -1] = some [1, 0] := by decide
 
 end PhyVerif.C06
